@@ -15,3 +15,19 @@ grep -v '^#' corpus.tsv | while IFS=$'\t' read -r kind prop fre file sedexpr; do
   if [ "$kind" = benign ] && [ "$nf" -gt 0 ]; then echo "FALSE-ALARM $prop $file :: $sedexpr :: $(echo "$out" | grep '^failed' | awk '{print $4}' | head -2 | tr '\n' ' ')"; fi
   if [ "$kind" = benign ] && [ "$nf" -eq 0 ]; then echo "green  $prop $file :: $sedexpr"; fi
 done
+
+# patch-based entries: selftest/patches/benign-*.diff must stay green, mutant-*.diff must fail (functions: all contracts of the touched packages)
+for pf in /verif/selftest/patches/*.diff; do
+  [ -f "$pf" ] || continue
+  kind=$(basename $pf | cut -d- -f1)
+  S=$(mktemp -d /tmp/mutp.XXXXXX); cp -r /repo/. $S/; ( cd $S && git apply $pf ) || { echo "SKIP   $kind $(basename $pf) :: PATCH DOES NOT APPLY"; rm -rf $S; continue; }
+  fre=$(grep '^+++ b/' $pf | sed 's|^+++ b/||' | while read f; do case $f in dag/*) echo 'dag\.';; internal/option/*) echo 'option\.';; internal/help/*) echo 'help\.';; internal/sliceiterator/*) echo 'sliceiterator\.';; *) echo 'getoptions\.';; esac; done | sort -u | paste -sd'|')
+  out=$(cd $S && GOFLAGS=-mod=mod GOPROXY=off GOSUMDB=off GOTOOLCHAIN=local go build ./... 2>&1 | head -3)
+  if [ -n "$out" ]; then echo "SKIP   $kind $(basename $pf) :: DOES NOT COMPILE"; rm -rf $S; continue; fi
+  nf=$(/verif/bin/govc run -repo $S -func "$fre" 2>&1 | grep -c '^failed')
+  rm -rf $S
+  if [ "$kind" = benign ] && [ "$nf" -gt 0 ]; then echo "FALSE-ALARM $(basename $pf) :: $nf failed"; fi
+  if [ "$kind" = benign ] && [ "$nf" -eq 0 ]; then echo "green  $(basename $pf)"; fi
+  if [ "$kind" = mutant ] && [ "$nf" -eq 0 ]; then echo "MISSED $(basename $pf)"; fi
+  if [ "$kind" = mutant ] && [ "$nf" -gt 0 ]; then echo "caught $(basename $pf) :: $nf failed"; fi
+done
